@@ -25,6 +25,12 @@ def to_sympy(e, cache, syms):
         if name not in syms:
             syms[name] = sympy.Symbol("v%d" % len(syms), real=True)
         r = syms[name]
+    elif z3.is_app(e) and e.decl().kind() in (z3.Z3_OP_IDIV, z3.Z3_OP_MOD, z3.Z3_OP_REM, z3.Z3_OP_TO_INT):
+        # integer division / remainder / floor: an opaque atom (an identity that holds for every value of the atom holds for its actual value)
+        name = "atom:" + e.sexpr()
+        if name not in syms:
+            syms[name] = sympy.Symbol("v%d" % len(syms), real=True)
+        r = syms[name]
     elif z3.is_app(e):
         k = e.decl().kind()
         ch = [to_sympy(c, cache, syms) for c in e.children()] if k not in (z3.Z3_OP_ITE,) else None
